@@ -245,6 +245,20 @@ Definition finalise (s : state) : state * Z :=
   let sb := fold_left kill (st_dead s) (s, 0) in
   ({| st_acc := st_acc (fst sb); st_refund := 0; st_dead := [] |}, snd sb).
 
+(** the two arms of TransitionDb's [if contractCreation]:
+      ret, _, st.gas, vmerr = st.vm.Create(sender, st.data, st.gas, st.value)
+    or
+      st.state.SetNonce(msg.From(), st.state.GetNonce(sender.Address())+1)
+      ret, st.gas, vmerr = st.vm.Call(sender, st.to(), st.data, st.gas, st.value) *)
+Definition vm_phase (s1 : state) (m : msg) (gas1 : Z) : state * Z * vm_err * Z :=
+  let from := m_from m in
+  match m_to m with
+  | None => create s1 (m_id m) from from (create_address from (nonce s1 from)) gas1 (m_value m)
+  | Some to =>
+    let s1' := set_nonce s1 from (W (nonce s1 from + 1)) in
+    call s1' (m_id m) from from to gas1 (m_value m)
+  end.
+
 (** ** ApplyTransaction = AsMessage + NewStateTransition(...).TransitionDb() + Finalise *)
 Definition apply_transaction (e : env) (s : state) (pool : Z) (m : msg) : outcome :=
   if negb (m_sigok m) then Rejected ESig s pool else
@@ -273,13 +287,7 @@ Definition apply_transaction (e : env) (s : state) (pool : Z) (m : msg) : outcom
     let gas1 := W (gas0 - ig) in
     if (0 <? m_value m) && negb (can_transfer s1 from (m_value m)) then Rejected EFundsTransfer s1 pool1
     else
-    let '(s2, gas2, vmerr, burn) :=
-      match m_to m with
-      | None => create s1 (m_id m) from from (create_address from (nonce s1 from)) gas1 (m_value m)
-      | Some to =>
-        let s1' := set_nonce s1 from (W (nonce s1 from + 1)) in
-        call s1' (m_id m) from from to gas1 (m_value m)
-      end in
+    let '(s2, gas2, vmerr, burn) := vm_phase s1 m gas1 in
     (* refundGas *)
     let refund0 := W (initial - gas2) / refund_quotient in
     let refund := if st_refund s2 <? refund0 then st_refund s2 else refund0 in
